@@ -9,15 +9,21 @@ quick   : generated reaction proxies (every sample of bounded random configurati
 thorough: the complete enumeration of DielsAlderProxy(neg_sample=False/True): implementation and
           compiled model compared sample by sample (fingerprints of canonical X, G, H), the
           executable property (balanced, mapped, halves (halvesB), superposition, daCentreOk) on every implementation
-          sample, RDKit sanitisation of every side.  The DA-centre clause is a **test** (exhaustive
-          enumeration of a finite configuration), not a theorem."""
+          sample, RDKit sanitisation of every side.
+The SHAPE part of the DA-centre clause is a theorem about the model on the regenerated configuration
+(C15.da_rc_shape_thm, Proofs/C15Rc*.lean: no sample is enumerated; its executable form daCycleB is applied by the
+driver to every implementation sample next to daCentreOk); the explicit-VALENCE part of the clause stays a
+**test** (daCentreOk: exhaustive enumeration of a finite configuration), not a theorem."""
 import re
 
 from common import Atom, Case, Run, call_impl, prepare, enc_graph, sx, ImplError
 from c13 import check_model_spec, finalize_model_spec
 from c14 import (canon_graph, fingerprint, enc_config, effective_groups, gen_config, num_exp, shipped, table_cases)
 
-PROOFS = ["FGVerif.Proofs.C15", "FGVerif.Proofs.C15General", "FGVerif.Proofs.C15Halves"]
+PROOFS = ["FGVerif.Proofs.C15", "FGVerif.Proofs.C15General", "FGVerif.Proofs.C15Halves",
+          # the Diels-Alder reaction-centre clause as a theorem (general lemmas: C15RcA/B; table obligations on the
+          # regenerated shipped configuration: C15RcPos/Neg, built in parallel by lake; umbrella: C15Rc)
+          "FGVerif.Proofs.C15Rc"]
 
 
 class PathSampler:
@@ -394,8 +400,14 @@ def run(tier, seed):
         "that the two agree on every sample in the decidable domain generalOk",
         "RDKit (RWMol, sanitisation incl. kekulisation) is not modelled: 'valence-valid molecules' is checked by the harness only; "
         "the model-side explicit-valence bound uses a fixed table of maximal valences (Model/C15.lean: maxValence)",
-        "the DA-centre shape clause is a test: exhaustive enumeration of the finite shipped configuration by the compiled model and by Python "
-        "(thorough tier; 300 random samples per mode in quick), not a kernel-checked theorem",
+        "the SHAPE part of the DA-centre clause (one six-membered carbon cycle, label multiset, no other changing bond) is a theorem about "
+        "the model for every sample of the regenerated configuration in both modes (C15.da_rc_shape_thm / da_rc_shape_all; general lemmas "
+        "C15.rc_step, C15.rc_shape_general; side conditions by decide +kernel over the group tables and the first three substitution levels "
+        "of the two core graphs, no sample enumerated); its executable form daCycleB (C15.daCycleB_sound) is applied to every implementation sample",
+        "the explicit-VALENCE part of the DA-centre clause is a test: exhaustive enumeration of the finite shipped configuration by the compiled "
+        "model and by Python (daCentreOk; thorough tier; 300 random samples per mode in quick), not a kernel-checked theorem: an anchor atom "
+        "inherits the bonds of the label node it replaces through chains of single-label patterns, the empty pattern H drops bonds, and the "
+        "Kekule-style valence count is not additive",
         "random DA samples are drawn with a restricting sampler (one graph per call); the complete enumeration uses the shipped non-restricting samplers",
         "SAMPLE COUNTS: coverage.notes.sample_counts states per mode and core graph which counts come from REAL iteration of the "
         "shipped proxy (a ReactionProxy built from that single core ProxyGraph, unique core sampler, and the proxy's own effective groups, "
@@ -414,11 +426,12 @@ def run(tier, seed):
         rule="every sample of bounded random reaction-proxy configurations (each configuration also as a whole against the model's expansion; see C14's generator; ITS and scalar patterns, simple and multigraph "
              "parser, samples with >= 41 atoms); DielsAlderProxy both modes: %d random choice paths per mode (quick) / complete enumeration "
              "(thorough); non-trivial = sample whose expanded pattern carries at least one ITS pair label" % n_paths,
-        checker_cmd="cd lean && lake build FGVerif.Proofs.C15 && lake env lean FGVerif/Audit/C15.lean",
+        checker_cmd="cd lean && lake build FGVerif.Proofs.C15 FGVerif.Proofs.C15Rc && lake env lean FGVerif/Audit/C15.lean",
         explanation="theorems C15.halvesB_sound / C15.halvesB_reaction (direct check of the halves, Proofs/C15Halves.lean), "
                     "C15.balanced_mapped / C15.superposition / C15.superposition_general (for the general C09/C10 models of "
-                    "get_its/split_its, Proofs/C15General.lean) and C15.da_counts (generated table, kernel arithmetic) in "
-                    "lean/FGVerif/Proofs/C15*.lean; executable property (balanced, mapped, halves label by label (halvesB), superposition, daCentreOk) applied by the compiled "
+                    "get_its/split_its, Proofs/C15General.lean), C15.da_counts (generated table, kernel arithmetic) and "
+                    "C15.da_rc_shape_thm (Diels-Alder reaction-centre shape of every sample, both modes, Proofs/C15Rc*.lean) in "
+                    "lean/FGVerif/Proofs/C15*.lean; executable property (balanced, mapped, halves label by label (halvesB), superposition, daCentreOk, daCycleB) applied by the compiled "
                     "driver to every implementation sample; model tied to the code sample by sample")
     if machinery:
         # a harness / worker defect is never a VIOLATION and never a pass
